@@ -144,6 +144,16 @@ func modelPgEncode(e *Exec, c *frame, fn *ssa.Function, a []Value) Value {
 			return Tuple{e.appendBytes(buf, txt), Iface{}}
 		}
 	}
+	// int4 with a Go string: pgx encodes any string as is in TEXT format
+	// (encodePlanStringToAnyTextFormat) and has no plan for it in binary format
+	if isString(val.T) {
+		if e.Branch(sym.Eq(oid, sym.Const(32, oidInt4))) {
+			if e.Branch(sym.Eq(a[2].(sym.Sc), sym.Const(16, 1))) {
+				return fail("string into binary int4")
+			}
+			return Tuple{e.appendBytes(buf, val.V.(Slice)), Iface{}}
+		}
+	}
 	// text-like OIDs only
 	textLike := sym.Or(sym.Eq(oid, sym.Const(32, oidText)), sym.Eq(oid, sym.Const(32, oidVarchar)))
 	if !e.Branch(textLike) {
